@@ -35,6 +35,11 @@ def configs(tier):
         out.append({"fn": "lowest_set_bit_masks", "w": w})
     for b in W:
         out.append({"fn": "cyclic_mask", "bits": b})
+    # start / end declared wider than range(bits) needs (and of different widths), values still < bits (DESIGN 13.2)
+    for b in ((1, 2, 3, 4, 5, 8) if tier == "quick" else range(1, 13)):
+        out.append({"fn": "cyclic_mask", "bits": b, "extra": 1})
+        out.append({"fn": "cyclic_mask", "bits": b, "extra": 2, "extra_end": 0})
+        out.append({"fn": "cyclic_mask", "bits": b, "extra": 0, "extra_end": 2})
     for mod in MODS:
         out.append({"fn": "mod_incr", "mod": mod})
         for mi in sorted(({0, 1, 2, 3, mod} & set(range(0, mod + 1))) | {mod + 1, 2 * mod + 1}):
@@ -109,8 +114,8 @@ def run(cfg, ctx):
             ctx.prove(f.__name__, z3.And(o.size() == w, *[bit(o, i) == sp(i) for i in range(w)]), hw=hw)
     elif fn == "cyclic_mask":
         bits = cfg["bits"]
-        st = Signal(range(bits), name="st")
-        en = Signal(range(bits), name="en")
+        st = Signal(len(Signal(range(bits))) + cfg.get("extra", 0), name="st")
+        en = Signal(len(Signal(range(bits))) + cfg.get("extra_end", cfg.get("extra", 0)), name="en")
         ins = [s for s in (st, en) if len(s)]
         c = Comb(ins, lambda m: [F.cyclic_mask(bits, st, en)])
         hw = ctx.use(c.hw)
